@@ -39,6 +39,8 @@ def tmpl(I, name, v=2):
     c = lambda s: list(s)
     if name == 'field':         # one response with one field, key and value free
         return hole(I, 'k', 1) + c(b': ') + hole(I, 'v', v) + c(b'\nOK\n')
+    if name == 'keys':          # field names of two free bytes (the alphabet lemma)
+        return hole(I, 'k', 2) + c(b': v\nOK\n')
     if name == 'field2':        # value that may look like protocol lines, second field
         return c(b'a: ') + hole(I, 'v', v) + c(b'\nB_-b: ') + hole(I, 'w', 1) + c(b'\nOK\n')
     if name == 'ack':
@@ -68,7 +70,7 @@ def tmpl(I, name, v=2):
         return c(b'binary: 20\n') + hole(I, 'p', 2) + c(b'ABCDEFGHIJKLMNOPQR\nOK\nk: v\nOK\n')
     raise KeyError(name)
 
-TEMPLATES_WF = ['field', 'field2', 'ack', 'binary', 'list', 'listerr', 'two', 'okok', 'long', 'longbin']
+TEMPLATES_WF = ['field', 'keys', 'field2', 'ack', 'binary', 'list', 'listerr', 'two', 'okok', 'long', 'longbin']
 
 # ---------------------------------------------------------------------------- sessions
 def run_session(I, flavour, body, cuts, cap, max_receives=4, greeting=GREETING, pending=False):
